@@ -70,6 +70,14 @@ class Prop:
             handlers.append({"id": "h%d" % j, "root": 0 if c.random() < 0.8 else c.randrange(npool),
                              "expr": expr, "form": form,
                              "dispatch": "ui" if (deferred and c.random() < 0.6) else "same"})
+        if c.random() < 0.2 and npool >= 2:
+            # the same function observing the same expression from a second root (for
+            # value-object worlds preferably a root that EQUALS the first one)
+            b = handlers[0]
+            others = [j for j in range(npool) if j != b["root"]]
+            same_parity = [j for j in others if j % 2 == b["root"] % 2]
+            handlers.append(dict(b, id=b["id"] + "~", twin_of=b["id"],
+                                 root=c.choice(same_parity or others)))
         pre = c.choice([0, 0, 2, 5])
         nops = deep(c, [3, 6, 10, 16, 24, 30], [45, 60])
         gc_mode = c.choice(["explicit", "explicit", "explicit", "storm"])
@@ -143,6 +151,12 @@ class Prop:
         handlers = [Handler(s) for s in cfg["handlers"]]
         for h in handlers:
             h.fn = mk_handler(h.id, records, sched, env)
+        for h in handlers:
+            # a twin registers the very same function with the same expression on
+            # another root: one more call per change that both roots reach
+            base = [b for b in handlers if b.id == h.spec.get("twin_of")]
+            if base:
+                h.fn = base[0].fn
         registered = False
         env.actions["nested_probe"] = lambda ev: None     # armed per op by arm_nested
         self.origin_ctr = 0
@@ -208,6 +222,12 @@ class Prop:
                     world.env.probe("k1-registration-postponed")
                     return False
         world.pinned_uids = set()
+        for h in list(handlers):
+            # a twin whose root index resolves to its base's root would be the same
+            # registration once more (counted, not called twice): left out
+            base = [b for b in handlers if b.id == h.spec.get("twin_of")]
+            if base and world.idx(h.spec["root"]) == world.idx(base[0].spec["root"]):
+                handlers.remove(h)
         for h in handlers:
             ri = world.idx(h.spec["root"])
             root = world.nodes[ri]
@@ -378,6 +398,8 @@ class Prop:
                 keep.extend(by.get(key, ()))
                 continue
             recs = by.get(key, [])
+            if hid.endswith("~") and (origin, hid[:-1]) in pending_expect:
+                continue                 # settled together with its base registration
             item = pending_expect.pop(key, None)
             if item is None:
                 if recs:
@@ -386,7 +408,24 @@ class Prop:
                                     "expression" % (hid, show_event(recs[0]["ev"])), step)
                 continue
             exp, ch, opi, desc, probe = item
-            check_calls(hid, exp, ch, recs, opi, desc, probe)
+            twin = pending_expect.pop((origin, hid + "~"), None)
+            if twin is None:
+                check_calls(hid, exp, ch, recs, opi, desc, probe)
+                continue
+            # the same function is registered on two roots: one call per root that
+            # reaches the change
+            exps = [e for e in (exp, twin[0]) if e is not None]
+            n_must = sum(1 for e in exps if e[0] == "must")
+            if not exps:
+                check_calls(hid, None, ch, recs, opi, desc, probe)
+                continue
+            if not (n_must <= len(recs) <= len(exps)):
+                raise Violation("C08.call-count",
+                                "%s%s: handler %s is registered on two roots, %d of which reach "
+                                "the change, but it was called %d times"
+                                % ("probe " if probe else "", desc, hid, len(exps), len(recs)), opi)
+            for rec in recs:
+                check_calls(hid, exps[0], ch, [rec], opi, desc, probe)
         records[:] = keep
 
     def cleanup(self):
